@@ -30,7 +30,7 @@ Implementation: Extension-based format detection (.yaml/.yml vs .json), yaml.saf
 from pathlib import Path
 from typing import Any
 
-from src.core.config_parser import ConfigParseError, parse_config_file, parse_pyproject_toml
+from src.core.config_parser import parse_config_file, parse_pyproject_toml
 
 
 def get_defaults() -> dict[str, Any]:
@@ -62,10 +62,9 @@ def load_config(config_path: Path) -> dict[str, Any]:
     """
     if not config_path.exists():
         pyproject_path = config_path.parent / "pyproject.toml"
-        try:
-            config = parse_pyproject_toml(pyproject_path)
-        except ConfigParseError:
+        if not pyproject_path.exists():
             return get_defaults()
+        config = parse_pyproject_toml(pyproject_path)
         return config if config else get_defaults()
 
     return parse_config_file(config_path)
